@@ -196,7 +196,8 @@ func (r *repo) apply(op Op) {
 		os.WriteFile(p, []byte{0, 1, 2, byte(r.seq), 0, 255, 0}, 0o644)
 	case "addlink":
 		os.MkdirAll(filepath.Dir(p), 0o755)
-		if err := os.Symlink("target of the link", p); err != nil {
+		r.seq++ // every link has its own target: two links with one content, one deleted and one created by the same commit, are a rename to git
+		if err := os.Symlink(fmt.Sprintf("target %d of the link", r.seq), p); err != nil {
 			panic("harness: symlink: " + err.Error())
 		}
 	case "modify":
